@@ -1127,6 +1127,8 @@ package genql
 //@   ensures null[C18]: len(args) == 2 && args[0] == nil ==> result == nil && err == nil
 //@   at-call Sprintf:"%v" assert the-string-form-is-the-printed-value[C18]: arg0 == "%v" && varargs == 1 && vararg0 == args[0]
 //@   at-call ToFloat64 assert the-double-is-read-from-the-value-itself[C18]: arg0 == args[0]
+//@   ensures string-form[C18]: err == nil && len(args) == 2 && args[0] != nil && typeis(args[1], string) && spec.ToLower(args[1].(string)) == "string" ==> called(Sprintf) && result == any(callresult(Sprintf, 0, 1))
+//@   ensures array-form[C18]: err == nil && len(args) == 2 && args[0] != nil && typeis(args[1], string) && spec.ToLower(args[1].(string)) == "array" ==> typeis(result, []any) && len(result.([]any)) == 1 && result.([]any)[0] == args[0]
 //@   at-call ToInt assert the-integer-is-read-from-the-value-itself[C18]: arg0 == args[0]
 
 // C18: a NULL algorithm, base or data is an error, not a nil dereference
@@ -1139,3 +1141,8 @@ package genql
 //@ func DecodeFunc
 //@   safety[C18]
 //@   ensures arity[C18]: len(args) != 2 ==> err != nil
+
+// C01: IN and NOT IN over a list never fail, whatever the list holds - also when it is empty (a subquery without rows
+// hands over a nil list)
+//@ func ComparisonExpr
+//@   ensures in-over-a-list-never-fails[C01,C02,C03,C04]: (expr.Operator == sqlparser.InOp || expr.Operator == sqlparser.NotInOp) && called(ValueOf) && callresult(Expr, 1, 1) == nil && callresult(ValueOf, 1, 1) == nil && callresult(Expr, 1, 2) == nil && callresult(ValueOf, 1, 2) == nil && typeis(callresult(Expr, 0, 2), []any) ==> err == nil
